@@ -13,7 +13,7 @@ pub const META: Meta = Meta {
     rule: "(interleave, proptest) random well-formed pcap files (0..50 records, both magics, snaplen 64..2^32-1 or exactly the largest caplen, record sizes clustered so that record ends and record headers straddle multiples of the \
 reader's 8 KiB buffer, random version/zone/sigfigs/linktype) read by a generated script with 1..12 calls of pcap_read_next / pcap_read_all(f) / pcap_read_all(f, n) (n in 0, 1, 2, k, remaining, remaining+3); every result is compared with a \
 reference reader (sec usec caplen wirelen payload of each record, null / [] after the end) and the file object's magic major minor thiszone sigfigs snaplen linktype with the header. \
-(truncate) small files cut at EVERY byte offset, read with four call patterns: exactly the complete records, then null or an error object. (corrupt) 1..3 byte edits inside the global header or a record header; the reference reader run on \
+(stdout-write, through the real binary) 1..6 records shaped around line feeds (none, only line feeds, a line feed followed by 1000..9000 bytes without one, a line feed inside the record header) copied with pcap_write to pcap_stream(stdout): the bytes after the global header must be exactly the records, every call must return 16 + caplen. (truncate) small files cut at EVERY byte offset, read with four call patterns: exactly the complete records, then null or an error object. (corrupt) 1..3 byte edits inside the global header or a record header; the reference reader run on \
 the edited bytes decides (bad magic -> pcap_open yields an error object; caplen > snaplen -> the records before it, then null or an error object). (roundtrip) all packets read are written with pcap_write to a new file; \
 that file parsed by the reference reader and re-read by p2sh must give the same records. Non-trivial: >= 2 records and (two different kinds of read call or a record crossing an 8192-byte boundary), or a cut strictly inside a record, or an edit that changes the record structure. Distinct by file hash + call sequence.",
     assumptions: &[
@@ -21,7 +21,7 @@ that file parsed by the reference reader and re-read by p2sh must give the same 
         "pcap_read_all running into the corrupted/truncated region may return the complete records read so far or an error object",
         "byte-swapped (big-endian) magic numbers are not generated",
     ],
-    required_classes: &[("interleave", 4_000), ("truncate:inside-record", 50_000), ("truncate:inside-global-header", 1_000), ("corrupt", 3_000), ("roundtrip", 400), ("crosses-8k", 300)],
+    required_classes: &[("interleave", 4_000), ("truncate:inside-record", 50_000), ("truncate:inside-global-header", 1_000), ("corrupt", 3_000), ("roundtrip", 400), ("crosses-8k", 300), ("stdout-write", 200)],
     exhaustive_when_sections: &[],
 };
 
@@ -399,6 +399,82 @@ fn roundtrip(ctx: &mut Ctx, bytes: &[u8]) -> Vec<Violation> {
     out
 }
 
+/// `pcap_write` to the pcap stream on stdout (redirected into the new file): the stream must hold every record in
+/// full. stdout is line-buffered with a small buffer, so record shapes are built around line feeds: none at all,
+/// only line feeds, a line feed followed by a tail of 1000..9000 bytes without one, a line feed inside the record header.
+fn stdout_case(seed: u64) -> (Vec<u8>, Vec<usize>) {
+    let fb = fill(seed, 64);
+    let mut c = Choices::new(&fb);
+    let n = 1 + c.below(6);
+    let mut recs = Vec::new();
+    let mut shapes = Vec::new();
+    for i in 0..n {
+        let shape = c.below(6);
+        shapes.push(shape);
+        let no_lf = |v: Vec<u8>| -> Vec<u8> { v.into_iter().map(|b| if b == 0x0a { 0x0b } else { b }).collect() };
+        let data: Vec<u8> = match shape {
+            0 => fill(mix64(seed ^ i as u64), c.below(3000)),
+            1 => {
+                let mut d = no_lf(fill(mix64(seed ^ (i as u64 + 100)), c.below(200)));
+                d.push(0x0a);
+                let tail = [1000usize, 1023, 1024, 1025, 1500, 3000, 9000][c.below(7)];
+                d.extend(no_lf(fill(mix64(seed ^ (i as u64 + 200)), tail)));
+                d
+            }
+            2 => vec![0x0a; c.below(2000)],
+            3 => no_lf(fill(mix64(seed ^ (i as u64 + 300)), 1024 + c.below(4000))),
+            4 => fill(mix64(seed ^ 400), c.below(20)),
+            _ => {
+                let mut d = b"GET /index.html HTTP/1.1\r\nHost: example\r\n\r\n".to_vec();
+                d.extend(std::iter::repeat(b'x').take(900 + c.below(1200)));
+                d
+            }
+        };
+        // a line feed byte inside the record header now and then (seconds = 10)
+        let sec = if c.chance(1, 3) { 10 } else { 0x0101_0101 + i as u32 };
+        recs.push(Rec { sec, usec: 0x0202_0202, wirelen: data.len() as u32, data });
+    }
+    let f = PcapFile { hdr: GHdr { magic: MAGIC_US, major: 2, minor: 4, thiszone: 0, sigfigs: 0, snaplen: 65535, linktype: 1 }, recs };
+    (f.bytes(), shapes)
+}
+
+fn stdout_check(ctx: &mut Ctx, seed: u64) -> Vec<Violation> {
+    use super::super::e2e::{self, Opts};
+    let (input, shapes) = stdout_case(seed);
+    let inp = scratch(&format!("c19-so-{}.pcap", std::process::id()));
+    if std::fs::write(&inp, &input).is_err() {
+        return vec![];
+    }
+    let src = format!("let f = pcap_open(\"{}\");\nlet o = pcap_stream(stdout);\nloop {{\n  let p = pcap_read_next(f);\n  if p == null {{ break; }}\n  eprintln(\"{{}}\", pcap_write(o, p));\n}}\n", inp);
+    guard("stdout-write", "seed", &format!("{} shapes {:?}", seed, shapes));
+    ctx.case(seed, shapes.iter().any(|s| matches!(s, 1 | 3 | 5)));
+    ctx.class("stdout-write");
+    let r = e2e::run(Opts::new(vec![e2e::script_file("c19-so.p2", &src)]));
+    let _ = std::fs::remove_file(&inp);
+    let case = json!({"stdout_write": seed});
+    let mut out = Vec::new();
+    if r.spawn_error.is_some() || r.timed_out {
+        ctx.infra("C19: stdout-write run failed to spawn or timed out".to_string());
+        return out;
+    }
+    if let Some(c) = r.crashed() {
+        out.push(Violation::new("stdout-write", e2e::crash_signature(&c), format!("{}\n{}", c, src), case));
+        return out;
+    }
+    let (_, recs, _) = parse(&input);
+    let want_counts: String = recs.iter().map(|r| format!("{}\n", 16 + r.data.len())).collect();
+    if r.err_text() != want_counts {
+        out.push(Violation::new("stdout-write", "stdout-write:return-values", format!("pcap_write returned (one per line)\n{}expected\n{}record shapes {:?}", r.err_text().chars().take(300).collect::<String>(), want_counts, shapes), case));
+        return out;
+    }
+    if r.stdout.len() < 24 || r.stdout[24..] != input[24..] {
+        let d = r.stdout.iter().zip(input.iter()).skip(24).position(|(a, b)| a != b).map(|p| p + 24).unwrap_or(r.stdout.len().min(input.len()));
+        let sig = if r.stdout.len() < input.len() { "stdout-write:bytes-missing" } else if r.stdout.len() > input.len() { "stdout-write:extra-bytes" } else { "stdout-write:bytes-differ" };
+        out.push(Violation::new("stdout-write", sig, format!("the stream on stdout has {} bytes, the records written make {} (first difference at byte {}); record shapes {:?}", r.stdout.len(), input.len(), d, shapes), case));
+    }
+    out
+}
+
 pub fn run(ctx: &mut Ctx) {
     set_hang_limit(120);
     truncate(ctx);
@@ -407,9 +483,28 @@ pub fn run(ctx: &mut Ctx) {
     drive(ctx, "interleave", ctx.tier.pick(8_000, 300_000) / n, 64, 900, |ctx, b| interleave(ctx, b));
     drive(ctx, "corrupt", ctx.tier.pick(16_000, 600_000) / n, 64, 400, |ctx, b| corrupt(ctx, b));
     drive(ctx, "roundtrip", ctx.tier.pick(1_600, 60_000) / n, 64, 600, |ctx, b| roundtrip(ctx, b));
+    // through the real binary (few shards: process creation does not scale here)
+    let e2e_shards = 4.min(ctx.nshards);
+    if ctx.shard < e2e_shards {
+        let total = ctx.tier.pick(240u64, 6_000);
+        for k in 0..total {
+            if k % e2e_shards as u64 != ctx.shard as u64 {
+                continue;
+            }
+            for v in stdout_check(ctx, mix64(ctx.seed ^ (k * 0x9e37 + 11))) {
+                ctx.report(v);
+            }
+        }
+    }
 }
 
 pub fn replay(section: &str, case: &Value, ctx: &mut Ctx) {
+    if let Some(seed) = case.get("stdout_write").and_then(|v| v.as_u64()) {
+        for v in stdout_check(ctx, seed) {
+            ctx.report(v);
+        }
+        return;
+    }
     let mut fb = unhex(case["file"].as_str().unwrap_or(""));
     if let Some(sizes) = case.get("sizes").and_then(|s| s.as_array()) {
         // compact form: a file of records of the given sizes under the given snaplen
